@@ -26,7 +26,7 @@ VARIABLES l, ghost, nodeop, lock, body, head, refsOK, topo, marker, pc, abort, t
           ord    \* [last, ok]: topology position of the last snapshot write and whether commit order = position order so far
 
 N == INSTANCE Node WITH Snap <- SnapC, Def <- DefC, Chain <- ChainC, Head0 <- Head0C,
-                        MaxCrash <- 1000, MaxTries <- 1000, Known <- KnownC, LockedMarker <- TRUE
+                        MaxCrash <- 1000, MaxTries <- 1000, Known <- KnownC, LockedMarker <- TRUE, AcceptRepair <- TRUE
 
 D(c, k, nr, r, af) == [chain |-> c, kind |-> k, newRound |-> nr, round |-> r, after |-> af, closes |-> {}, ext |-> <<"-", 0>>]
 DX(c, k, nr, r, af, cl, ex) == [chain |-> c, kind |-> k, newRound |-> nr, round |-> r, after |-> af, closes |-> cl, ext |-> ex]
@@ -139,7 +139,7 @@ FullRestart ==
     /\ LET o == Ev.obs IN
         /\ o.marker = marker'
         /\ o.topo = topo'
-        /\ \A c \in ChainC : c \in DOMAIN o.head => o.head[c] = head[c]
+        /\ \A c \in ChainC : c \in DOMAIN o.head => o.head[c] = head'[c]
         /\ SeqToSet(o.body) = body
         /\ SeqToSet(o.final) = SeqToSet(topo)
         /\ (o.setup = "ok") = ~broken'
